@@ -138,6 +138,13 @@ theorem C01_kept_parent_active (env : Env σ) (d : Doc) (hc : conformantB d = tr
   exact (he.1 _).2 ⟨hp, kept_parent_kept (conformant_treeLike hc) s.hv s.cfg ts hx'.1 hx0 hx'.2 hpar⟩
 #assert_axioms C01_kept_parent_active
 
+/-- the clause "the document root is active" of `legalB` is preserved by every microstep (for any
+    transition set, history and data model): once the root is active it stays active -/
+theorem C01_root_stays_active (env : Env σ) (d : Doc) (hroot : parentOf d d.root = 0) (s : Sess σ)
+    (ts : List Nat) (h : d.root ∈ s.cfg) : d.root ∈ (microstep env d s ts).cfg :=
+  (C01_microstep_configuration env d s ts d.root).2 (Or.inl ⟨h, C01_root_never_exited d s.hv s.cfg ts hroot⟩)
+#assert_axioms C01_root_stays_active
+
 /-- **no state is exited while a state below it is still active**: in the order in which
     `exitStates` processes the exit set (reverse document order, `C02_exit_order`), every exited
     descendant of a state stands before that state — together with `C01_exit_descendant_closed`:
